@@ -638,16 +638,847 @@ pub mod history {
     }
 }
 
+// ---------------------------------------------------------------------------
+// LARGE-SCALE sub-checks (C16/large-*): reference / query lengths, node counts, edge weights and
+// numbers of additions across the threshold ladder. Sequences are expanded deterministically from
+// `{lengths, kinds, seed}` by splitmix64. Oracles: the textbook Needleman-Wunsch `nw` of this module
+// (O(mn), two rows of i64; for homopolymer pairs additionally the closed form), the path walk
+// `validate_linear`, and linear-time structural checks of the graph.
+
+pub mod large {
+    use super::*;
+    use crate::oracles::scale::c141516::{ladder, Sm64};
+    use crate::rung_label_c141516 as rung;
+
+    #[derive(Serialize, Deserialize, Debug, Clone, Copy, PartialEq)]
+    pub enum RKind {
+        /// uniform over the first `sigma_r` letters
+        Random,
+        /// all 'a'
+        Homopolymer,
+        /// a random word of this length repeated
+        Periodic(u8),
+        /// random over the first sigma_r letters, with an island of `len` copies of the LAST letter of the
+        /// alphabet (absent elsewhere when sigma_r < sigma) starting at fraction `at` of the possible range:
+        /// a `Foreign { len }` query has its unique optimal alignment on the island
+        Island { at: u16, len: u8 },
+    }
+
+    #[derive(Serialize, Deserialize, Debug, Clone, Copy, PartialEq)]
+    pub enum QKind {
+        /// the reference itself
+        Same,
+        /// the reference with `count` random substitutions / insertions / deletions
+        Edits { count: u32 },
+        /// uniform over all `sigma` letters
+        Random { len: u32 },
+        /// all 'a'
+        HomoA { len: u32 },
+        /// all copies of the last letter of the alphabet (never in the reference when sigma_r < sigma)
+        Foreign { len: u32 },
+        /// reference[start .. start+len] (start = frac of the possible range) with `subs` substitutions
+        Window { start: u16, len: u32, subs: u8 },
+        /// random flank + reference + random flank
+        Embedded { left: u32, right: u32 },
+    }
+
+    fn letters(g: &mut Sm64, n: usize, sigma: u8) -> Vec<u8> {
+        (0..n).map(|_| b'a' + g.below(sigma as u64) as u8).collect()
+    }
+
+    pub fn make_ref(kind: RKind, m: usize, sigma_r: u8, sigma: u8, g: &mut Sm64) -> Vec<u8> {
+        match kind {
+            RKind::Island { at, len } => {
+                let mut r = letters(g, m, sigma_r);
+                let len = (len as usize).clamp(1, m);
+                let s = crate::engine::gen::idx(at, m - len);
+                for x in r[s..s + len].iter_mut() {
+                    *x = b'a' + sigma - 1;
+                }
+                r
+            }
+            RKind::Random => letters(g, m, sigma_r),
+            RKind::Homopolymer => vec![b'a'; m],
+            RKind::Periodic(p) => {
+                let w = letters(g, p.max(1) as usize, sigma_r);
+                (0..m).map(|i| w[i % w.len()]).collect()
+            }
+        }
+    }
+
+    pub fn make_query(kind: QKind, r: &[u8], sigma: u8, g: &mut Sm64) -> Vec<u8> {
+        let mut q = match kind {
+            QKind::Same => r.to_vec(),
+            QKind::Edits { count } => {
+                let mut pos: Vec<usize> = (0..count).map(|_| g.below(r.len() as u64) as usize).collect();
+                pos.sort_unstable();
+                pos.dedup();
+                let mut q = Vec::with_capacity(r.len() + pos.len());
+                let mut pi = 0;
+                for (i, &c) in r.iter().enumerate() {
+                    if pi < pos.len() && pos[pi] == i {
+                        pi += 1;
+                        match g.below(3) {
+                            0 => q.push(b'a' + ((c - b'a') as u64 + 1 + g.below(sigma.max(2) as u64 - 1)) as u8 % sigma.max(1)),
+                            1 => {
+                                q.push(b'a' + g.below(sigma as u64) as u8);
+                                q.push(c);
+                            }
+                            _ => {}
+                        }
+                    } else {
+                        q.push(c);
+                    }
+                }
+                q
+            }
+            QKind::Random { len } => letters(g, len as usize, sigma),
+            QKind::HomoA { len } => vec![b'a'; len as usize],
+            QKind::Foreign { len } => vec![b'a' + sigma - 1; len as usize],
+            QKind::Window { start, len, subs } => {
+                let len = (len as usize).clamp(1, r.len());
+                let s = crate::engine::gen::idx(start, r.len() - len);
+                let mut q = r[s..s + len].to_vec();
+                for _ in 0..subs {
+                    let i = g.below(len as u64) as usize;
+                    q[i] = b'a' + g.below(sigma as u64) as u8;
+                }
+                q
+            }
+            QKind::Embedded { left, right } => {
+                let mut q = letters(g, left as usize, sigma);
+                q.extend_from_slice(r);
+                q.extend(letters(g, right as usize, sigma));
+                q
+            }
+        };
+        if q.is_empty() {
+            q.push(b'a');
+        }
+        q
+    }
+
+    #[derive(Deserialize)]
+    struct AlnMirror {
+        score: i32,
+        operations: Vec<AlignmentOperation>,
+    }
+
+    /// the private operation list through the derived Serialize impl, decoded without a Value tree
+    fn ops_of_streaming(a: &Alignment) -> Result<Vec<AlignmentOperation>, String> {
+        let bytes = serde_json::to_vec(a).map_err(|e| format!("observation lost: poa::Alignment does not serialise: {}", e))?;
+        let m: AlnMirror = serde_json::from_slice(&bytes).map_err(|e| format!("observation lost: serialised poa::Alignment does not decode as {{score, operations}}: {}", e))?;
+        if m.score != a.score {
+            return Err("observation lost: serialised alignment has a different `score`".to_string());
+        }
+        Ok(m.operations)
+    }
+
+    fn show_seq(s: &[u8]) -> String {
+        if s.len() <= 60 {
+            format!("{:?}", lossy(s))
+        } else {
+            format!("[{} symbols: {:?}..{:?}]", s.len(), lossy(&s[..24]), lossy(&s[s.len() - 24..]))
+        }
+    }
+
+    fn show_ops(ops: &[AlignmentOperation]) -> String {
+        if ops.len() <= 40 {
+            format!("{:?}", ops)
+        } else {
+            format!("[{} operations: {:?} .. {:?}]", ops.len(), &ops[..12], &ops[ops.len() - 12..])
+        }
+    }
+
+    // -----------------------------------------------------------------------
+    // linear graphs
+
+    pub mod linear {
+        use super::*;
+
+        #[derive(Serialize, Deserialize, Debug, Clone, Copy, PartialEq)]
+        pub enum Api {
+            /// Aligner::new / global / global_banded / alignment
+            Aligner,
+            /// Poa::from_string / custom / global_banded, Traceback::alignment
+            Poa,
+        }
+
+        #[derive(Serialize, Deserialize, Debug, Clone)]
+        pub struct Case {
+            /// reference length >= 1
+            pub m: u32,
+            pub rkind: RKind,
+            /// letters of the reference: the first sigma_r of the alphabet (1 <= sigma_r <= sigma)
+            pub sigma_r: u8,
+            /// alphabet size (2..=4); also the size of a score table
+            pub sigma: u8,
+            pub q: QKind,
+            pub score: Score,
+            pub gap: i32,
+            pub gap_extend: i32,
+            /// Some(e): also run global_banded with bandwidth max(|reference|, |query|) + e
+            pub band: Option<u32>,
+            pub api: Api,
+            pub seed: u64,
+        }
+
+        pub fn check(c: &Case) -> R {
+            let _published = crate::oracles::scale::c141516::publish(c);
+            ensure!(c.m >= 1 && c.sigma >= 1 && c.sigma <= 8 && c.sigma_r >= 1 && c.sigma_r <= c.sigma && c.gap <= 0 && c.gap >= -20 && c.gap_extend <= 0, "harness: bad parameters in {:?}", c);
+            let mut g = Sm64::stream(c.seed, 160);
+            let r = make_ref(c.rkind, c.m as usize, c.sigma_r, c.sigma, &mut g);
+            let q = make_query(c.q, &r, c.sigma, &mut g);
+            let (m, n) = (r.len(), q.len());
+            ensure!((m as u64) * (n as u64) <= 40_000_000, "harness: matrix of {} x {} cells is too large ({:?})", m, n, c);
+            ensure!(c.score.covers(&r) && c.score.covers(&q), "harness: symbols outside the score table in {:?}", c);
+            let what = format!("reference {} query {} ({:?})", show_seq(&r), show_seq(&q), c);
+
+            let expect_rq = nw(&r, &q, &c.score, c.gap);
+            let transposed = c.score.transposed();
+            let expect_qr = if c.score.is_symmetric() { expect_rq } else { nw(&r, &q, &transposed, c.gap) };
+            // closed form for homopolymer pairs under match/mismatch scoring (validates `nw` at this size)
+            if let Score::Simple { m: ms, x } = c.score {
+                if r.iter().all(|&b| b == r[0]) && q.iter().all(|&b| b == q[0]) {
+                    let (lo, hi) = (m.min(n) as i64, m.max(n) as i64);
+                    let pair = if r[0] == q[0] { ms as i64 } else { x as i64 };
+                    let gapv = c.gap as i64;
+                    let closed = if pair >= 2 * gapv { lo * pair + (hi - lo) * gapv } else { (lo + hi) * gapv };
+                    ensure!(closed == expect_rq, "harness: Needleman-Wunsch reference {} differs from the closed form {} for a homopolymer pair; {}", expect_rq, closed, what);
+                }
+            }
+
+            let scoring = || Scoring::new(c.gap, c.gap_extend, MF(c.score.clone()));
+            let bw = m.max(n) + c.band.unwrap_or(0) as usize;
+            // the banded matrix has about |reference| * (|query| + bandwidth) cells
+            let band_feasible = c.band.is_some() && (m as u64) * ((n + bw) as u64) <= 14_000_000;
+            let (a, b): (Alignment, Option<Alignment>) = match c.api {
+                Api::Aligner => {
+                    let mut al = Aligner::new(scoring(), &r);
+                    let a = al.global(&q).alignment();
+                    let b = if band_feasible { Some(al.global_banded(&q, bw).alignment()) } else { None };
+                    (a, b)
+                }
+                Api::Poa => {
+                    let poa = bio::alignment::poa::Poa::from_string(scoring(), &r);
+                    let a = poa.custom(&q).alignment();
+                    let b = if band_feasible { Some(poa.global_banded(&q, bw).alignment()) } else { None };
+                    (a, b)
+                }
+            };
+            ensure!(
+                a.score as i64 == expect_rq || a.score as i64 == expect_qr,
+                "global: score {} but the Needleman-Wunsch optimum is {} (function applied as f(reference, query)) or {} (as f(query, reference)); {}",
+                a.score, expect_rq, expect_qr, what
+            );
+            let (expect, conv) = if a.score as i64 == expect_rq { (expect_rq, c.score.clone()) } else { (expect_qr, transposed) };
+            let ops = match ops_of_streaming(&a) {
+                Ok(o) => o,
+                Err(e) => fail!("{}", e),
+            };
+            let walk = match validate_linear(&ops, &r, &q, &conv, c.gap) {
+                Ok(w) => w,
+                Err(e) => fail!("global: operations {} are not an alignment of the query to the reference: {}; {}", show_ops(&ops), e, what),
+            };
+            ensure!(walk.score == a.score as i64, "global: operations {} recompute to {} but the reported score is {}; {}", show_ops(&ops), walk.score, a.score, what);
+            if let Some(b) = &b {
+                ensure!(b.score as i64 == expect, "global_banded(bandwidth {}): score {} but the Needleman-Wunsch optimum (and the unbanded score) is {}; {}", bw, b.score, expect, what);
+            }
+
+            let mut pass = Pass::new(r != q && (m >= 255 || n >= 255));
+            if let Some(l) = rung!("reference length", m) {
+                pass.add(l);
+            }
+            if let Some(l) = rung!("query length", n) {
+                pass.add(l);
+            }
+            pass.add_if(m >= 255 && n >= 255, "reference and query both >= 255");
+            pass.add_if(m >= 1023 && n >= 1023, "reference and query both >= 1023");
+            pass.add_if(m >= 4095 && n <= 64, "long reference, short query");
+            pass.add_if(n >= 4095 && m <= 64, "short reference, long query");
+            pass.add_if(b.is_some(), "banded run checked");
+            pass.add_if(b.is_some() && (m >= 255 && n >= 255), "banded run checked with both lengths >= 255");
+            pass.add_if(b.is_some() && n >= 65535, "banded run checked with query length >= 65535");
+            pass.add_if(c.band.is_some() && b.is_none(), "banded run infeasible (matrix of |reference| x (|query|+bandwidth) cells)");
+            pass.add_if(walk.gaps >= 255, ">= 255 gap columns");
+            pass.add_if(walk.gaps >= 65535, ">= 65535 gap columns");
+            pass.add_if(expect <= -255, "optimum <= -255");
+            pass.add_if(expect >= 255, "optimum >= 255");
+            pass.add_if(expect.abs() >= 32768, "|optimum| >= 32768");
+            pass.add_if(expect.abs() >= 65536, "|optimum| >= 65536");
+            pass.add_if(!c.score.is_symmetric() && expect_rq != expect_qr, "asymmetric table: argument order matters");
+            pass.add_if(c.score.is_table(), "table scoring");
+            pass.add_if(r == q, "query identical to reference");
+            pass.add(match c.api {
+                Api::Aligner => "entry point Aligner::global",
+                Api::Poa => "entry point Poa::from_string + Poa::custom",
+            });
+            pass.add(match c.rkind {
+                RKind::Random => "random reference",
+                RKind::Homopolymer => "homopolymer reference",
+                RKind::Periodic(_) => "periodic reference",
+                RKind::Island { .. } => "reference with an island of a foreign letter",
+            });
+            let max_match_node = ops.iter().filter_map(|o| if let AlignmentOperation::Match(Some((_, c))) = o { Some(*c) } else { None }).max().unwrap_or(0);
+            pass.add_if(max_match_node >= 256, "match at a node index >= 256");
+            pass.add_if(max_match_node >= 65_537, "match at a node index > 65536");
+            pass.add_if(max_match_node >= 131_073, "match at a node index > 131072");
+            Ok(pass)
+        }
+
+        const ASYM: [i32; 9] = [2, -1, 0, -3, 1, -2, 1, 0, 3];
+
+        fn scoring(k: usize, sigma: u8) -> (Score, i32) {
+            let n = sigma as usize;
+            match k % 4 {
+                0 => (Score::Simple { m: 1, x: -1 }, -1),
+                1 => (Score::Simple { m: 2, x: -3 }, -2),
+                2 => {
+                    // asymmetric table
+                    let t: Vec<i32> = (0..n * n).map(|i| if i / n == i % n { 1 + (i % 3) as i32 } else { ASYM[(i * 7 + 3) % 9].min(0) - ((i / n > i % n) as i32) }).collect();
+                    (Score::Table { sigma, t }, -1)
+                }
+                _ => (Score::Simple { m: 0, x: -2 }, 0),
+            }
+        }
+
+        fn mk(k: usize, m: u64, rkind: RKind, sigma_r: u8, sigma: u8, q: QKind, band: Option<u32>) -> Case {
+            let (score, gap) = scoring(k, sigma);
+            Case { m: m as u32, rkind, sigma_r, sigma, q, score, gap, gap_extend: -(k as i32 % 3), band, api: if k % 3 == 2 { Api::Poa } else { Api::Aligner }, seed: 0x5eed_0016_0000 + k as u64 * 7919 }
+        }
+
+        /// (A) reference and query both long
+        pub fn enumerate_square(tier: Tier) -> Box<dyn Iterator<Item = Case>> {
+            let mut v = Vec::new();
+            let k = 0usize;
+            let kc = std::cell::Cell::new(k);
+            let push = |v: &mut Vec<Case>, m: u64, rkind: RKind, sigma_r: u8, sigma: u8, q: QKind, band: Option<u32>| {
+                v.push(mk(kc.get(), m, rkind, sigma_r, sigma, q, band));
+                kc.set(kc.get() + 1);
+            };
+            let mut sq = ladder(1025);
+            sq.extend([2047, 2048, 2049]);
+            if tier == Tier::Thorough {
+                sq.extend([4094, 4098]);
+            }
+            for &m in &sq {
+                let band = if m <= 2049 { Some((m % 3) as u32) } else { None };
+                push(&mut v, m, RKind::Random, 3, 3, QKind::Edits { count: (m / 40 + 3) as u32 }, band);
+                if m <= 1025 || tier == Tier::Thorough {
+                    push(&mut v, m, RKind::Random, 2, 3, QKind::Same, band);
+                    push(&mut v, m, RKind::Random, 4, 4, QKind::Random { len: (m + 1 - m % 3) as u32 }, band);
+                    push(&mut v, m, RKind::Homopolymer, 1, 2, QKind::HomoA { len: (m - 2 + m % 5) as u32 }, band);
+                    push(&mut v, m, RKind::Homopolymer, 1, 2, QKind::Foreign { len: m as u32 }, band);
+                    push(&mut v, m, RKind::Periodic(3), 2, 2, QKind::Edits { count: 5 }, band);
+                }
+            }
+            // 4095..4097 squared (no banded run: 34 million cells)
+            push(&mut v, 4095, RKind::Random, 3, 3, QKind::Edits { count: 60 }, None);
+            push(&mut v, 4096, RKind::Random, 4, 4, QKind::Edits { count: 100 }, None);
+            push(&mut v, 4097, RKind::Periodic(5), 2, 3, QKind::Edits { count: 9 }, None);
+            Box::new(v.into_iter())
+        }
+
+        /// (B) long reference, short query (no banded run: its matrix has |reference| * bandwidth cells)
+        pub fn enumerate_long_reference(tier: Tier) -> Box<dyn Iterator<Item = Case>> {
+            let mut v = Vec::new();
+            let k = 1000usize;
+            let kc = std::cell::Cell::new(k);
+            let push = |v: &mut Vec<Case>, m: u64, rkind: RKind, sigma_r: u8, sigma: u8, q: QKind, band: Option<u32>| {
+                v.push(mk(kc.get(), m, rkind, sigma_r, sigma, q, band));
+                kc.set(kc.get() + 1);
+            };
+            for &m in &ladder((1 << 20) + 1) {
+                if m < 4095 {
+                    continue;
+                }
+                let len: u32 = if m > 140_000 { 3 } else if m > 40_000 { 6 } else { 12 };
+                let quick = tier == Tier::Quick;
+                if !quick || m <= 140_000 || m % 3 != 2 {
+                    push(&mut v, m, RKind::Random, 3, 4, QKind::Window { start: [65535u16, 0, 30_000][(m % 3) as usize], len, subs: 1 }, None);
+                }
+                if !quick || m <= 40_000 || (m % 3 == 2) {
+                    push(&mut v, m, RKind::Homopolymer, 1, 2, QKind::HomoA { len }, None);
+                }
+                if !quick || m <= 40_000 {
+                    push(&mut v, m, RKind::Random, 2, 3, QKind::Foreign { len: 3 }, None);
+                }
+                // the matched nodes are the LAST ones (or lie around the middle): operations carry large node indices
+                if !quick || m <= 140_000 || m % 3 == 1 {
+                    let il = len.min(8) as u8;
+                    let at = if m % 2 == 0 { 65_535u16 } else { 40_000 };
+                    kc.set(kc.get() + (4 - kc.get() % 4) % 4); // scoring 0: match +1, mismatch -1, gap -1 (unique optimum on the island)
+                    push(&mut v, m, RKind::Island { at, len: il }, 3, 4, QKind::Foreign { len: il as u32 }, None);
+                }
+            }
+            // islands across node index 65535/65536/65537 and 131071..131073
+            for (m, at) in [(70_000u64, 61_356u16), (70_000, 61_357), (140_000, 61_356)] {
+                kc.set(kc.get() + (4 - kc.get() % 4) % 4);
+                push(&mut v, m, RKind::Island { at, len: 6 }, 3, 4, QKind::Foreign { len: 6 }, None);
+            }
+            Box::new(v.into_iter())
+        }
+
+        /// (C) short reference, long query
+        pub fn enumerate_long_query(tier: Tier) -> Box<dyn Iterator<Item = Case>> {
+            let mut v = Vec::new();
+            let k = 2000usize;
+            let kc = std::cell::Cell::new(k);
+            let push = |v: &mut Vec<Case>, m: u64, rkind: RKind, sigma_r: u8, sigma: u8, q: QKind, band: Option<u32>| {
+                v.push(mk(kc.get(), m, rkind, sigma_r, sigma, q, band));
+                kc.set(kc.get() + 1);
+            };
+            for &n in &ladder((1 << 20) + 1) {
+                if n < 4095 {
+                    continue;
+                }
+                let m: u64 = if n > 140_000 { 3 } else { 9 };
+                let quick = tier == Tier::Quick;
+                let band = if !quick || n <= 140_000 || n % 2 == 0 { Some(1) } else { None };
+                if !quick || n <= 140_000 || n % 3 != 2 {
+                    push(&mut v, m, RKind::Random, 3, 3, QKind::Embedded { left: (n - m) as u32 / 2, right: (n - m) as u32 - (n - m) as u32 / 2 }, band);
+                }
+                if !quick || n <= 40_000 || n % 3 == 2 {
+                    push(&mut v, m, RKind::Homopolymer, 1, 2, QKind::HomoA { len: n as u32 }, band);
+                }
+                if !quick || n <= 40_000 {
+                    push(&mut v, m, RKind::Random, 2, 3, QKind::Random { len: n as u32 }, band);
+                }
+            }
+            Box::new(v.into_iter())
+        }
+
+        pub fn strat(tier: Tier) -> BoxedStrategy<Case> {
+            let sqmax: u64 = match tier {
+                Tier::Quick => 1025,
+                Tier::Thorough => 2049,
+            };
+            let longmax: u64 = match tier {
+                Tier::Quick => 131_073,
+                Tier::Thorough => (1 << 20) + 1,
+            };
+            let near = |max: u64| {
+                let l = ladder(max);
+                let nl = l.len();
+                prop_oneof![3 => (0..nl, -2i64..=2).prop_map(move |(i, d)| (l[i] as i64 + d).max(1) as u64), 1 => 255u64..=max].boxed()
+            };
+            let score_strat = |sigma: u8| score(sigma);
+            (2u8..=4, any::<u64>(), any::<u16>(), any::<u16>(), 0u8..3)
+                .prop_flat_map(move |(sigma, seed, a, b, shape)| {
+                    let dims = match shape {
+                        0 => (near(sqmax), Just(0u64)).boxed(),
+                        1 => (near(longmax), 1u64..=12).boxed(),
+                        _ => (1u64..=9, near(longmax)).boxed(),
+                    };
+                    (Just((sigma, seed, a, b, shape)), dims, score_strat(sigma), -3i32..=0, -5i32..=0, proptest::option::weighted(0.7, 0u32..=4))
+                })
+                .prop_map(|((sigma, seed, a, b, shape), (x, y), score, gap, gap_extend, band)| {
+                    let rkind = match a % 6 {
+                        0 => RKind::Homopolymer,
+                        1 => RKind::Periodic(1 + (a / 6 % 7) as u8),
+                        2 if shape == 1 => RKind::Island { at: if a % 4 == 0 { 65_535 } else { a }, len: y.min(8) as u8 },
+                        _ => RKind::Random,
+                    };
+                    let sigma_r = if matches!(rkind, RKind::Island { .. }) { sigma - 1 } else { 1 + (b % sigma as u16) as u8 };
+                    let island = matches!(rkind, RKind::Island { .. });
+                    let (m, q) = match shape {
+                        0 => (x, match b % 5 {
+                            0 => QKind::Same,
+                            1 => QKind::Random { len: (x as i64 + (a % 7) as i64 - 3).max(1) as u32 },
+                            2 => QKind::HomoA { len: x as u32 },
+                            _ => QKind::Edits { count: 1 + (a as u32 % 40) },
+                        }),
+                        1 => {
+                            let len = if x > 140_000 { y.min(4) } else { y } as u32;
+                            (x, match b % 4 {
+                                _ if island => QKind::Foreign { len: len.min(8) },
+                                0 => QKind::Foreign { len },
+                                1 => QKind::Random { len },
+                                _ => QKind::Window { start: a, len, subs: (b / 4 % 3) as u8 },
+                            })
+                        }
+                        _ => {
+                            let m = if y > 140_000 { x.min(3) } else { x };
+                            (m, match b % 3 {
+                                0 => QKind::Random { len: y as u32 },
+                                1 => QKind::HomoA { len: y as u32 },
+                                _ => QKind::Embedded { left: ((y.saturating_sub(m)) / 2) as u32, right: (y.saturating_sub(m) - y.saturating_sub(m) / 2) as u32 },
+                            })
+                        }
+                    };
+                    Case { m: m as u32, rkind, sigma_r, sigma, q, score, gap, gap_extend, band, api: if seed % 3 == 0 { Api::Poa } else { Api::Aligner }, seed }
+                })
+                .boxed()
+        }
+    }
+
+    // -----------------------------------------------------------------------
+    // histories
+
+    pub mod history {
+        use super::*;
+
+        #[derive(Serialize, Deserialize, Debug, Clone)]
+        pub struct Step {
+            pub q: QKind,
+            /// the same query is aligned and added this many times (>= 1)
+            pub repeat: u32,
+            /// global_banded with bandwidth = node count + |query| + 1 (falls back to global when the
+            /// banded matrix, node count x (|query| + bandwidth) cells, would exceed 14 million cells)
+            pub banded: bool,
+        }
+
+        #[derive(Serialize, Deserialize, Debug, Clone)]
+        pub struct Case {
+            pub m: u32,
+            pub rkind: RKind,
+            pub sigma_r: u8,
+            pub sigma: u8,
+            pub score: Score,
+            pub gap: i32,
+            pub gap_extend: i32,
+            pub steps: Vec<Step>,
+            pub seed: u64,
+        }
+
+        /// is `word` spelled by a path? frontier walk over adjacency lists; `None`: work budget exceeded
+        fn spelled(labels: &[u8], succ: &[Vec<usize>], word: &[u8]) -> Option<bool> {
+            let n = labels.len();
+            let mut stamp = vec![usize::MAX; n];
+            let mut cur: Vec<usize> = (0..n).filter(|&i| labels[i] == word[0]).collect();
+            let mut work = n as u64;
+            for (k, &c) in word.iter().enumerate().skip(1) {
+                let mut next = Vec::new();
+                for &a in &cur {
+                    for &b in &succ[a] {
+                        work += 1;
+                        if labels[b] == c && stamp[b] != k {
+                            stamp[b] = k;
+                            next.push(b);
+                        }
+                    }
+                }
+                if work > 400_000_000 {
+                    return None;
+                }
+                cur = next;
+                if cur.is_empty() {
+                    return Some(false);
+                }
+            }
+            Some(!cur.is_empty())
+        }
+
+        struct State {
+            labels: Vec<u8>,
+            /// (source, target, summed weight), sorted by (source, target), parallel edges merged
+            edges: Vec<(usize, usize, i64)>,
+        }
+
+        fn snap(g: &POAGraph) -> State {
+            let labels = g.raw_nodes().iter().map(|n| n.weight).collect();
+            let mut raw: Vec<(usize, usize, i64)> = g.raw_edges().iter().map(|e| (e.source().index(), e.target().index(), e.weight as i64)).collect();
+            raw.sort_unstable();
+            let mut edges: Vec<(usize, usize, i64)> = Vec::with_capacity(raw.len());
+            for (a, b, w) in raw {
+                match edges.last_mut() {
+                    Some(l) if l.0 == a && l.1 == b => l.2 += w,
+                    _ => edges.push((a, b, w)),
+                }
+            }
+            State { labels, edges }
+        }
+
+        fn acyclic(s: &State, succ: &[Vec<usize>]) -> bool {
+            let n = s.labels.len();
+            let mut indeg = vec![0usize; n];
+            for &(_, b, _) in &s.edges {
+                indeg[b] += 1;
+            }
+            let mut stack: Vec<usize> = (0..n).filter(|&i| indeg[i] == 0).collect();
+            let mut seen = 0;
+            while let Some(v) = stack.pop() {
+                seen += 1;
+                for &w in &succ[v] {
+                    indeg[w] -= 1;
+                    if indeg[w] == 0 {
+                        stack.push(w);
+                    }
+                }
+            }
+            seen == n
+        }
+
+        /// first old edge that is missing or lighter in the new (sorted) edge list
+        fn weight_regression(before: &State, after: &State) -> Option<((usize, usize), i64, Option<i64>)> {
+            let mut j = 0;
+            for &(a, b, w) in &before.edges {
+                while j < after.edges.len() && (after.edges[j].0, after.edges[j].1) < (a, b) {
+                    j += 1;
+                }
+                if j < after.edges.len() && after.edges[j].0 == a && after.edges[j].1 == b {
+                    if after.edges[j].2 < w {
+                        return Some(((a, b), w, Some(after.edges[j].2)));
+                    }
+                } else {
+                    return Some(((a, b), w, None));
+                }
+            }
+            None
+        }
+
+        pub fn check(c: &Case) -> R {
+            let _published = crate::oracles::scale::c141516::publish(c);
+            ensure!(c.m >= 1 && c.sigma >= 1 && c.sigma <= 8 && c.sigma_r >= 1 && c.sigma_r <= c.sigma && c.gap <= 0 && c.gap >= -20 && c.gap_extend <= 0, "harness: bad parameters in {:?}", c);
+            ensure!(c.steps.iter().all(|s| s.repeat >= 1), "harness: repeat 0 in {:?}", c);
+            let mut g = Sm64::stream(c.seed, 161);
+            let r = make_ref(c.rkind, c.m as usize, c.sigma_r, c.sigma, &mut g);
+            ensure!(c.score.covers(&r), "harness: reference outside the score table in {:?}", c);
+            let what = |done: usize| format!("reference {} after {} additions of the history {:?}", show_seq(&r), done, c);
+            let mut al = aligner(&c.score, c.gap, c.gap_extend, &r);
+            let mut before = snap(al.graph());
+            ensure!(before.labels == r, "node labels of the initial graph differ from the reference; {}", what(0));
+            // the empty series of additions: consensus of the reference-only graph
+            let cons0 = match catch(|| al.consensus()) {
+                Ok(v) => v,
+                Err(p) => fail!("consensus() of the reference-only graph panicked: {}; {}", p, what(0)),
+            };
+            ensure!(cons0 == r, "consensus {} of the reference-only graph differs from the reference; {}", show_seq(&cons0), what(0));
+
+            let strict = c.score.identity_unique();
+            let mut all_same = true;
+            let mut done = 0usize;
+            let mut pass = Pass::new(c.steps.iter().map(|s| s.repeat as u64).sum::<u64>() >= 2);
+            let mut max_weight = 1i64;
+            let mut work: u64 = 0;
+            for st in &c.steps {
+                let q = make_query(st.q, &r, c.sigma, &mut g);
+                ensure!(c.score.covers(&q), "harness: query outside the score table in {:?}", c);
+                for _ in 0..st.repeat {
+                    let nodes = before.labels.len();
+                    ensure!((nodes as u64) * (q.len() as u64) <= 40_000_000, "harness: matrix of {} x {} cells is too large ({:?})", nodes, q.len(), c);
+                    let bw = nodes + q.len() + 1;
+                    let banded = st.banded && (nodes as u64) * ((q.len() + bw) as u64) <= 14_000_000;
+                    work += (nodes + before.edges.len()) as u64 + (nodes as u64) * (if banded { q.len() + 2 * bw } else { q.len() }) as u64 / 8;
+                    ensure!(work <= 1_000_000_000, "harness: history too expensive ({:?})", c);
+                    let a = if banded { al.global_banded(&q, bw).alignment() } else { al.global(&q).alignment() };
+                    let chain = before.labels == r && before.edges.len() + 1 == r.len() && before.edges.iter().enumerate().all(|(i, e)| e.0 == i && e.1 == i + 1);
+                    if chain && (r.len() as u64) * (q.len() as u64) <= 5_000_000 {
+                        let e1 = nw(&r, &q, &c.score, c.gap);
+                        let e2 = nw(&r, &q, &c.score.transposed(), c.gap);
+                        ensure!(
+                            a.score as i64 == e1 || a.score as i64 == e2,
+                            "the graph is still the chain of the reference, but aligning query {} ({}) scores {} instead of the Needleman-Wunsch optimum {}; {}",
+                            show_seq(&q), if banded { "global_banded" } else { "global" }, a.score, e1, what(done)
+                        );
+                        pass.add("score checked on a chain graph inside a history");
+                        pass.add_if(max_weight >= 256, "score checked on a chain graph whose edge weights exceed 255");
+                    }
+                    al.add_to_graph();
+                    done += 1;
+                    let after = snap(al.graph());
+                    let n_after = after.labels.len();
+                    let mut succ: Vec<Vec<usize>> = vec![Vec::new(); n_after];
+                    let mut edges_ok = true;
+                    for &(x, y, _) in &after.edges {
+                        if x >= n_after || y >= n_after {
+                            edges_ok = false;
+                        } else {
+                            succ[x].push(y);
+                        }
+                    }
+                    ensure!(edges_ok, "an edge refers to a node index >= node count {}; {}", n_after, what(done));
+                    ensure!(acyclic(&after, &succ), "the graph has a cycle ({} nodes, {} edges); {}", n_after, after.edges.len(), what(done));
+                    ensure!(n_after >= nodes && after.labels[..nodes] == before.labels[..], "node labels changed or nodes were removed: {} nodes before, {} after; {}", nodes, n_after, what(done));
+                    if let Some((e, w, now)) = weight_regression(&before, &after) {
+                        fail!("edge {:?} had weight {} before the addition and has {:?} after it; {}", e, w, now, what(done));
+                    }
+                    let grown = n_after - nodes;
+                    ensure!(grown <= q.len(), "node count grew by {} > query length {}; {}", grown, q.len(), what(done));
+                    let cons = match catch(|| al.consensus()) {
+                        Ok(v) => v,
+                        Err(p) => fail!("consensus() panicked: {} (graph: {} nodes, {} edges); {}", p, n_after, after.edges.len(), what(done)),
+                    };
+                    ensure!(!cons.is_empty(), "consensus is empty; {}", what(done));
+                    match spelled(&after.labels, &succ, &cons) {
+                        Some(ok) => ensure!(ok, "consensus {} is not spelled by any path of the graph ({} nodes, {} edges); {}", show_seq(&cons), n_after, after.edges.len(), what(done)),
+                        None => fail!("harness: path check of the consensus exceeded its work budget; {}", what(done)),
+                    }
+                    all_same &= q == r;
+                    if all_same && strict {
+                        ensure!(after.labels == r, "only copies of the reference were added (identity is the unique optimal alignment) but the graph has {} nodes instead of {}; {}", n_after, r.len(), what(done));
+                        ensure!(cons == r, "only copies of the reference were added but the consensus is {}; {}", show_seq(&cons), what(done));
+                        pass.add_if(done >= 2, "reference added repeatedly (identity clause checked)");
+                    }
+                    let mw = after.edges.iter().map(|e| e.2).max().unwrap_or(0);
+                    max_weight = max_weight.max(mw);
+                    for t in [256usize, 65_536, 131_072, 1 << 20] {
+                        if nodes < t && n_after >= t {
+                            pass.add(match t {
+                                256 => "node count crosses 256 within one addition",
+                                65_536 => "node count crosses 65536 within one addition",
+                                131_072 => "node count crosses 131072 within one addition",
+                                _ => "node count crosses 2^20 within one addition",
+                            });
+                        }
+                    }
+                    if let Some(l) = rung!("node count after an addition", n_after) {
+                        pass.add(l);
+                    }
+                    pass.add_if(grown == q.len() && grown > 0, "node count grew by exactly the query length");
+                    pass.add_if(banded, "banded step");
+                    pass.add_if(st.banded && !banded, "banded step infeasible (fell back to global)");
+                    pass.add_if(nodes >= 256 && after.edges.iter().any(|&(x, y, w)| x >= 256 && y >= 256 && w >= 2), "edge between nodes >= 256 reinforced");
+                    pass.add_if(nodes >= 65_536 && after.edges.iter().any(|&(x, y, w)| x >= 65_536 && y >= 65_536 && w >= 2), "edge between nodes >= 65536 reinforced");
+                    before = after;
+                }
+            }
+            if let Some(l) = rung!("number of additions", done) {
+                pass.add(l);
+            }
+            if let Some(l) = rung!("largest edge weight", max_weight) {
+                pass.add(l);
+            }
+            pass.add_if(max_weight > 257, "edge weight > 257");
+            pass.add_if(max_weight > 65_537, "edge weight > 65537");
+            if let Some(l) = rung!("reference length", r.len()) {
+                pass.add(l);
+            }
+            let n = before.labels.len();
+            let mut outdeg = vec![0usize; n];
+            for &(a, _, _) in &before.edges {
+                outdeg[a] += 1;
+            }
+            pass.add_if(outdeg.iter().any(|&d| d >= 2), "branching graph");
+            pass.add_if(c.score.is_table(), "table scoring");
+            Ok(pass)
+        }
+
+        fn strict_simple(k: usize) -> (Score, i32) {
+            [(Score::Simple { m: 1, x: -1 }, -1), (Score::Simple { m: 2, x: 0 }, -2), (Score::Simple { m: 3, x: -3 }, 0), (Score::Simple { m: 1, x: -2 }, -3)][k % 4].clone()
+        }
+
+        pub fn enumerate(tier: Tier) -> Box<dyn Iterator<Item = Case>> {
+            let mut v = Vec::new();
+            let mut k = 0usize;
+            let mut push = |v: &mut Vec<Case>, m: u64, rkind: RKind, sigma_r: u8, sigma: u8, steps: Vec<Step>| {
+                let (score, gap) = strict_simple(k);
+                v.push(Case { m: m as u32, rkind, sigma_r, sigma, score, gap, gap_extend: -1, steps, seed: 0x415_0016_0000 + k as u64 * 104_729 });
+                k += 1;
+            };
+            let same = |repeat: u32, banded: bool| Step { q: QKind::Same, repeat, banded };
+            // H1: edge weights across 255..257 and 65535..65537: the same sequence added again and again
+            for &w in &[254u32, 255, 256, 300] {
+                push(&mut v, 12, RKind::Random, 3, 3, vec![same(w, false)]);
+                push(&mut v, 7, RKind::Homopolymer, 1, 2, vec![same(w / 2, true), same(w - w / 2, false)]);
+            }
+            for &w in &[65_534u32, 65_535, 65_536] {
+                push(&mut v, 3, RKind::Random, 2, 2, vec![same(w, false)]);
+            }
+            push(&mut v, 2, RKind::Periodic(2), 2, 2, vec![same(70_000, false)]);
+            // a non-reference branch reinforced 300 times
+            push(&mut v, 10, RKind::Random, 2, 3, vec![Step { q: QKind::Edits { count: 2 }, repeat: 300, banded: false }, same(2, false)]);
+            // H2: node counts across the ladder. A query of foreign letters adds exactly its length in nodes.
+            let mut tops = vec![256u64, 512, 1024, 4096, 8192, 16_384, 32_768, 65_536, 131_072];
+            if tier == Tier::Thorough {
+                tops.extend([1 << 19, 1 << 20]);
+            }
+            for &t in &tops {
+                for target in [t - 1, t, t + 1] {
+                    let f1: u64 = if t > 140_000 { 4 } else { 9 };
+                    let f2 = f1 - 2;
+                    let m = target - f1; // the first addition lands exactly on `target` nodes
+                    let wl = if t > 140_000 { 4 } else { 10 };
+                    let mut steps = vec![
+                        Step { q: QKind::Foreign { len: f1 as u32 }, repeat: 2, banded: false },
+                        Step { q: QKind::Window { start: 65_535, len: wl, subs: 2 }, repeat: 1, banded: false },
+                        Step { q: QKind::Foreign { len: f2 as u32 }, repeat: 2, banded: t <= 4096 },
+                        Step { q: QKind::Window { start: 20_000, len: wl, subs: 1 }, repeat: 2, banded: false },
+                    ];
+                    if t > 140_000 {
+                        steps.truncate(2); // three additions on graphs of 2^19 / 2^20 nodes
+                    }
+                    push(&mut v, m, if t <= 1024 && target % 2 == 0 { RKind::Periodic(5) } else { RKind::Random }, 3, 4, steps);
+                }
+            }
+            // H3: the identity clause on long references
+            for &m in &[255u64, 256, 257, 511, 512, 513, 1023, 1024, 1025] {
+                push(&mut v, m, if m % 2 == 0 { RKind::Random } else { RKind::Periodic(7) }, 3, 3, vec![same(1, m <= 513), same(2, false)]);
+            }
+            if tier == Tier::Thorough {
+                push(&mut v, 2048, RKind::Random, 4, 4, vec![same(2, false)]);
+                push(&mut v, 4097, RKind::Random, 4, 4, vec![same(1, false)]);
+            }
+            // H4: number of additions across 255..257: short random queries against a growing graph
+            for &a in &[255u32, 256, 257, 513] {
+                push(&mut v, 16, RKind::Random, 3, 3, vec![Step { q: QKind::Same, repeat: 1, banded: false }, Step { q: QKind::Edits { count: 2 }, repeat: a / 2, banded: a % 2 == 0 }, Step { q: QKind::Random { len: 6 }, repeat: a - 1 - a / 2, banded: false }]);
+            }
+            // many DIFFERENT additions: every step a fresh random query (graph grows steadily)
+            push(&mut v, 24, RKind::Random, 3, 3, (0..60).map(|i| Step { q: if i % 3 == 0 { QKind::Edits { count: 3 } } else { QKind::Random { len: 20 } }, repeat: 1, banded: i % 4 == 0 }).collect());
+            Box::new(v.into_iter())
+        }
+
+        pub fn strat(tier: Tier) -> BoxedStrategy<Case> {
+            let tmax: u64 = match tier {
+                Tier::Quick => 65_536,
+                Tier::Thorough => 131_072,
+            };
+            let qk = prop_oneof![
+                3 => Just(QKind::Same),
+                2 => (1u32..=4).prop_map(|count| QKind::Edits { count }),
+                2 => (1u32..=12).prop_map(|len| QKind::Foreign { len }),
+                2 => (1u32..=12).prop_map(|len| QKind::Random { len }),
+                3 => (any::<u16>(), 1u32..=12, 0u8..=3).prop_map(|(start, len, subs)| QKind::Window { start, len, subs }),
+            ];
+            let step = (qk, prop_oneof![6 => 1u32..=3, 1 => 250u32..=300], any::<bool>()).prop_map(|(q, repeat, banded)| Step { q, repeat, banded });
+            let l: Vec<u64> = ladder(tmax + 1).into_iter().filter(|x| x % 2 == 0 || *x == 70_000).collect();
+            let nl = l.len();
+            let size = prop_oneof![2 => 2u64..=40, 3 => (0..nl, 0u64..=30).prop_map(move |(i, d)| l[i].saturating_sub(d).max(2))];
+            (size, proptest::collection::vec(step, 1..=6), 2u8..=4, any::<u16>(), any::<u64>(), -3i32..=0)
+                .prop_map(|(m, mut steps, sigma, a, seed, gap)| {
+                    let rkind = if m <= 2000 && a % 5 == 0 { RKind::Homopolymer } else if m <= 2000 && a % 5 == 1 { RKind::Periodic(1 + (a / 5 % 6) as u8) } else { RKind::Random };
+                    let sigma_r = if m > 2000 { (sigma - 1).max(2) } else { 1 + (a % (sigma as u16 - 1).max(1)) as u8 };
+                    // keep the whole history cheap: full-length queries only against short references
+                    let mut big = 0;
+                    for s in steps.iter_mut() {
+                        // at most two long runs of the same query, and those with the unbanded aligner (a banded
+                        // step costs node count x (|query| + 2 x bandwidth) cells)
+                        if s.repeat > 4 {
+                            big += 1;
+                            if big > 2 {
+                                s.repeat = 2;
+                            }
+                            s.banded = false;
+                        }
+                        if m > 600 {
+                            if matches!(s.q, QKind::Same | QKind::Edits { .. }) {
+                                s.q = QKind::Window { start: a, len: 10, subs: 1 };
+                            }
+                            s.repeat = s.repeat.min(3);
+                        } else if m > 40 {
+                            s.repeat = s.repeat.min(4);
+                        }
+                    }
+                    let (score, _) = strict_simple(a as usize / 7);
+                    Case { m: m as u32, rkind, sigma_r, sigma: sigma.max(sigma_r + 1), score, gap, gap_extend: -1, steps, seed }
+                })
+                .boxed()
+        }
+    }
+}
+
 pub fn property() -> Property {
     Property {
         id: "C16",
-        rule: "linear: reference (1..14, a tenth 15..40) and query (copy, 1-4 edits of the reference, or random, 1..14) over 1-3 letters (never X), match/mismatch scores or a symmetric score table, per-base gap penalty -3..0 (gap_extend arbitrary); global() score = textbook Needleman-Wunsch, the operation list (read through the derived Serialize of poa::Alignment) consumes reference and query exactly and recomputes to the reported score, global_banded with bandwidth >= max(lengths) gives the same score; exhaustive: all reference/query pairs over {a,b} up to length 4 (6 thorough) under 7 scorings. history: 0-5 global/global_banded(bandwidth >= nodes+|query|) + add_to_graph steps; after every step: acyclic, old node labels unchanged, every old (source,target) edge present with summed weight >= before, node growth <= |query|, consensus() non-empty and spelled by a path; while only copies of the reference were added under a scoring that makes the identity alignment the unique optimum: node labels and consensus equal the reference. Non-trivial = linear: query != reference with at least one gap column in the returned optimal alignment; history: at least 2 additions. Distinct = distinct serialised case.",
+        rule: "linear: reference (1..14, a tenth 15..40) and query (copy, 1-4 edits of the reference, or random, 1..14) over 1-3 letters (never X), match/mismatch scores or a symmetric score table, per-base gap penalty -3..0 (gap_extend arbitrary); global() score = textbook Needleman-Wunsch, the operation list (read through the derived Serialize of poa::Alignment) consumes reference and query exactly and recomputes to the reported score, global_banded with bandwidth >= max(lengths) gives the same score; exhaustive: all reference/query pairs over {a,b} up to length 4 (6 thorough) under 7 scorings. history: 0-5 global/global_banded(bandwidth >= nodes+|query|) + add_to_graph steps; after every step: acyclic, old node labels unchanged, every old (source,target) edge present with summed weight >= before, node growth <= |query|, consensus() non-empty and spelled by a path; while only copies of the reference were added under a scoring that makes the identity alignment the unique optimum: node labels and consensus equal the reference. Non-trivial = linear: query != reference with at least one gap column in the returned optimal alignment; history: at least 2 additions. Distinct = distinct serialised case. LARGE-SCALE (C16/large-*): cases are {lengths, sequence kinds (random, homopolymer, periodic, island of a foreign letter), query kind (copy, random edits, random, homopolymer, foreign letter, window of the reference, reference embedded in random flanks), scoring, seed}, expanded deterministically by splitmix64. Linear graphs: reference and query both on the rungs 255..257 .. 4095..4097 (banded run with bandwidth = max(lengths)+0..2 up to 2049), long reference (every rung 4095..4097 .. 2^20-1..2^20+1) with a short query, short reference with a long query (same rungs; banded run where its |reference| x (|query|+bandwidth) matrix fits), matches forced onto node indices beyond 65536 / 131072 by islands; entry points Aligner::global/global_banded and Poa::from_string + Poa::custom / Poa::global_banded; oracle: Needleman-Wunsch (closed form for homopolymer pairs), path walk, banded score. Histories: the same sequence added 254..300 and 65534..70000 times (edge weights across 255..257 and 65535..65537), a side branch reinforced 300 times, node counts landing on and crossing every rung 255..257 .. 131071..131073 (thorough: 2^19, 2^20) through queries of a foreign letter (which add exactly their length in nodes), 255..513 additions, identity clause on references of 255..1025 symbols; after EVERY addition the invariants of C16/history (acyclic, labels kept, weights not decreased, growth <= |query|, consensus non-empty and spelled by a path). Non-trivial there: query != reference with a length >= 255 / at least 2 additions.",
         assumptions: &[
             "sequences never contain the symbol X (add_alignment treats a query X as a wildcard that is absorbed by any node)",
             "the argument order of the match function is not part of the property: for asymmetric tables either f(reference, query) or f(query, reference) is accepted, but consistently for score, path and banded run",
             "the clause 'adding the reference leaves nodes and consensus equal to it' is asserted only when equal symbols score >= 1 and different symbols <= 0 (otherwise other alignments of a sequence with itself are equally optimal and may legitimately add nodes)",
             "the empty series of additions is a series: consensus of the reference-only graph must be the reference",
             "scoring uses Scoring::new (no clip penalties configured)",
+            "large-scale sub-checks: |reference| * |query| <= 40 million cells; the banded run is made only where its matrix of |reference| * (|query| + bandwidth) cells stays below 14 million; scores -3..3 and lengths <= 2^20+1 keep every i32 score far from the MIN_SCORE sentinel",
+            "Poa::from_string + Poa::custom with Scoring::new (all clip penalties MIN_SCORE) is a global alignment: it is held to the same Needleman-Wunsch clause as Aligner::global",
         ],
         subs: vec![
             Box::new(PropSub {
@@ -673,6 +1504,13 @@ pub fn property() -> Property {
                 must_reach: &["history length >= 2", "reference length 1", "graph without edges", "reference added repeatedly (identity clause checked)", "branching graph", "banded step", "edge weight >= 3", "score checked on a chain graph after earlier additions"],
                 watch: true,
             }),
+            // ---- large-scale sub-checks (threshold ladders for reference/query length, node count, edge weight, additions)
+            Box::new(ExhSub { name: "C16/large-linear-both-long", enumerate: large::linear::enumerate_square, check: large::linear::check, must_reach: &["reference length in 255..257", "reference length in 511..513", "reference length in 1023..1025", "reference length in 4095..4097", "reference length in 2047..2049", "query length in 255..257", "query length in 511..513", "query length in 1023..1025", "query length in 4095..4097", "reference and query both >= 1023", "banded run checked with both lengths >= 255", "asymmetric table: argument order matters", "entry point Aligner::global", "entry point Poa::from_string + Poa::custom", "match at a node index >= 256", ">= 255 gap columns", "homopolymer reference", "periodic reference", "query identical to reference"] }),
+            Box::new(ExhSub { name: "C16/large-linear-long-reference", enumerate: large::linear::enumerate_long_reference, check: large::linear::check, must_reach: &["reference length in 4095..4097", "reference length in 8191..8193", "reference length in 16383..16385", "reference length in 32767..32769", "reference length in 65535..65537", "reference length in 131071..131073", "reference length in 2^19-1..2^19+1", "reference length in 2^20-1..2^20+1", "reference length ~70000", "match at a node index > 65536", "match at a node index > 131072", ">= 65535 gap columns", "|optimum| >= 65536", "reference with an island of a foreign letter", "entry point Poa::from_string + Poa::custom"] }),
+            Box::new(ExhSub { name: "C16/large-linear-long-query", enumerate: large::linear::enumerate_long_query, check: large::linear::check, must_reach: &["query length in 4095..4097", "query length in 8191..8193", "query length in 16383..16385", "query length in 32767..32769", "query length in 65535..65537", "query length in 131071..131073", "query length in 2^19-1..2^19+1", "query length in 2^20-1..2^20+1", "query length ~70000", "banded run checked with query length >= 65535", ">= 65535 gap columns", "|optimum| >= 65536", "entry point Poa::from_string + Poa::custom"] }),
+            Box::new(ExhSub { name: "C16/large-history", enumerate: large::history::enumerate, check: large::history::check, must_reach: &["largest edge weight in 255..257", "largest edge weight in 65535..65537", "edge weight > 257", "edge weight > 65537", "node count after an addition in 255..257", "node count after an addition in 511..513", "node count after an addition in 1023..1025", "node count after an addition in 4095..4097", "node count after an addition in 8191..8193", "node count after an addition in 16383..16385", "node count after an addition in 32767..32769", "node count after an addition in 65535..65537", "node count after an addition in 131071..131073", "node count crosses 256 within one addition", "node count crosses 65536 within one addition", "node count crosses 131072 within one addition", "number of additions in 255..257", "number of additions in 65535..65537", "reference added repeatedly (identity clause checked)", "reference length in 255..257", "reference length in 511..513", "reference length in 1023..1025", "edge between nodes >= 256 reinforced", "edge between nodes >= 65536 reinforced", "banded step", "score checked on a chain graph whose edge weights exceed 255", "node count grew by exactly the query length", "branching graph"] }),
+            Box::new(PropSub { name: "C16/large-linear-random", quick: 96, thorough: 1600, shards_quick: 16, shards_thorough: 16, strat: large::linear::strat, check: large::linear::check, must_reach: &["banded run checked", "entry point Aligner::global", "entry point Poa::from_string + Poa::custom"], watch: true }),
+            Box::new(PropSub { name: "C16/large-history-random", quick: 96, thorough: 1600, shards_quick: 16, shards_thorough: 16, strat: large::history::strat, check: large::history::check, must_reach: &["banded step", "branching graph", "score checked on a chain graph inside a history"], watch: true }),
         ],
     }
 }
